@@ -154,7 +154,7 @@ def _majority(flags, N):
     return 2 * (1 + Count(flags)) > N
 
 
-@obligation('R7', props=('C04', 'C01', 'C20', 'C18', 'C05', 'C03'),
+@obligation('R7', props=('C04', 'C01', 'C20', 'C18', 'C05', 'C03', 'C02'),
             quick=[dict(N=2, n=2), dict(N=3, n=3), dict(N=4, n=2), dict(N=5, n=2), dict(N=3, n=2, obs=1)],
             thorough=[dict(N=N, n=n) for N in (1, 2, 3, 4, 5) for n in (2, 3, 4)] + [dict(N=3, n=3, obs=2), dict(N=2, n=2, obs=3), dict(N=4, n=2, obs=1)],
             stubs=_STUBS, bounds='voters N<=5 (both parities), observers<=3, n<=4, terms 0..4, matchIndex/lastResponseTime arbitrary, fallback timeout in (appendEntriesPeriod, 30], clock unbounded')
